@@ -1,6 +1,20 @@
 import HdVerif.Proofs.VR
+import HdVerif.Proofs.Aliasing
 import HdVerif.Generated.T20vr
 import HdVerif.Generated.T20uid
+import HdVerif.Generated.T20alias_content
+import HdVerif.Generated.T20alias_seg_content
+import HdVerif.Generated.T20alias_seg_sop
+import HdVerif.Generated.T20alias_ann_content
+import HdVerif.Generated.T20alias_ann_sop
+import HdVerif.Generated.T20alias_ko_content
+import HdVerif.Generated.T20alias_ko_sop
+import HdVerif.Generated.T20alias_sr_coding
+import HdVerif.Generated.T20alias_sr_content
+import HdVerif.Generated.T20alias_sr_sop
+import HdVerif.Generated.T20alias_sr_value_types
+import HdVerif.Generated.T20alias_sr_templates
+import HdVerif.Generated.T20alias_image
 /-!
 # C20  Building objects never alters inputs and always yields valid files
 
@@ -13,7 +27,13 @@ correspondence only and is labelled *support*):
   exact set they accept;
 * `uuid_uid_valid`, `default_uid_valid`, `uid_unique_per_draw`: identifiers built by `UID.from_uuid` and `UID()`
   (root / prefix literals regenerated from `uid.py`) are valid UIDs for **every** 128-bit value / every draw, and two
-  calls yield the same identifier only if the random draws coincide.
+  calls yield the same identifier only if the random draws coincide;
+* `inputs_never_written`, `copy_leaves_original`, `nocopy_returns_same`: the copy-or-alias data flow of **every**
+  `from_dataset` / `from_sequence` converter of content, seg, ann, ko, sr (coding, content, value types, templates, sop)
+  and image, and of the two array helpers of the segmentation constructor, **as extracted from the current source**
+  (`Generated/T20alias_*.lean`, 64 programs): under every valuation of the conditions the code branches on, and
+  whatever a write does to the regions it hits, the caller's objects keep their content unless in-place conversion
+  was asked for, a copying conversion returns a newly allocated object, a non-copying one the very object it was given.
 -/
 namespace HdVerif.C20
 open HdVerif HdVerif.VR HdVerif.Gen
@@ -262,5 +282,117 @@ example : validUID "2.25.0".toList := by decide
 example : ¬ validUID "2.25.01".toList := by decide
 example : ¬ validUID "2..25".toList := by decide
 example : fromUuid uuidRoot (2 ^ 128 - 1) = .ok "2.25.340282366920938463463374607431768211455".toList := by decide
+
+/-! ## copy-or-alias data flow -/
+open HdVerif.Aliasing
+
+/-- every extracted program (the tables are regenerated from /repo on every run) -/
+def allEntries : List Entry :=
+  alias_content ++ alias_seg_content ++ alias_seg_sop ++ alias_ann_content ++ alias_ann_sop ++ alias_ko_content ++
+  alias_ko_sop ++ alias_sr_coding ++ alias_sr_content ++ alias_sr_sop ++ alias_sr_value_types ++ alias_sr_templates ++
+  alias_image
+
+/-- converters the extractor could not abstract (none on the pinned tree); they are carried by the correspondence only -/
+def allSkipped : List String :=
+  aliasSkipped_content ++ aliasSkipped_seg_content ++ aliasSkipped_seg_sop ++ aliasSkipped_ann_content ++
+  aliasSkipped_ann_sop ++ aliasSkipped_ko_content ++ aliasSkipped_ko_sop ++ aliasSkipped_sr_coding ++
+  aliasSkipped_sr_content ++ aliasSkipped_sr_sop ++ aliasSkipped_sr_value_types ++ aliasSkipped_sr_templates ++
+  aliasSkipped_image
+
+/-- nothing was left out of the tables: every converter and both array helpers were abstracted -/
+theorem alias_extraction_complete : allSkipped = [] ∧ 60 ≤ allEntries.length := by decide
+
+private theorem wellformed :
+    (allEntries.all fun e => condsBelowList e.nCond e.prog && decide (0 < e.nCond)) = true := by decide
+
+private theorem wf {e : Entry} (he : e ∈ allEntries) : condsBelowList e.nCond e.prog = true ∧ 0 < e.nCond := by
+  have := List.all_eq_true.mp wellformed e he
+  simpa using this
+
+private theorem table_nocopy_param :
+    (allEntries.all fun e => e.hasCopy || neverWritesInputs e) = true := by decide +kernel
+
+private theorem table_copy :
+    (allEntries.all fun e => !e.hasCopy || copyLeavesOriginal e) = true := by decide +kernel
+
+/-- the one converter that has to build a new container around the caller's items (a `ContentSequence` keeps a name
+index and cannot be obtained by re-classing a list); see `nocopy_returns_same` -/
+def rebuildsContainer (e : Entry) : Bool := e.name == "ContentSequence.from_sequence"
+
+private theorem table_nocopy :
+    (allEntries.all fun e => !e.hasCopy || rebuildsContainer e || nocopyReturnsSame e) = true := by decide +kernel
+
+/-- **inputs_never_written.**  A constructor path or converter that offers no in-place mode (no `copy` parameter: the
+segmentation constructor's `_check_and_cast_pixel_array` and `_get_segment_pixel_array`, `KeyObjectSelectionDocument.
+from_dataset`, `SpecimenDescription.from_dataset`, the SR template converters, …) never alters what it was given: in every
+run — any valuation `v` of the conditions it branches on, any effect `w` of the writes it performs — every input region
+`r < nIn` ends with the content it started with. -/
+theorem inputs_never_written (e : Entry) (he : e ∈ allEntries) (hc : e.hasCopy = false)
+    (v : Nat) (w : Nat → Nat → Nat) (store : Nat → Nat) (r : Nat) (hr : r < e.nIn) :
+    (run e.prog e.nIn v w store).store r = store r := by
+  have h := List.all_eq_true.mp table_nocopy_param e he
+  simp only [hc, Bool.false_or] at h
+  exact neverWritesInputs_sound e (wf he).1 h v w store r hr
+
+/-- **copy_leaves_original.**  For every converter with a `copy` parameter, called with `copy=True` (bit 0 of the
+valuation): the original keeps its content (so do all other arguments), and what is returned is a newly allocated
+object, not the original or a part of it. -/
+theorem copy_leaves_original (e : Entry) (he : e ∈ allEntries) (hc : e.hasCopy = true)
+    (v : Nat) (hv : v.testBit 0 = true) (w : Nat → Nat → Nat) (store : Nat → Nat) :
+    (∀ r, r < e.nIn → (run e.prog e.nIn v w store).store r = store r) ∧
+    (∀ ref, (run e.prog e.nIn v w store).result = some ref → e.nIn ≤ ref.region) := by
+  have h := List.all_eq_true.mp table_copy e he
+  simp only [hc, Bool.not_true, Bool.false_or] at h
+  exact copyLeavesOriginal_sound e (wf he).1 (wf he).2 h v hv w store
+
+/-- **nocopy_returns_same.**  For every converter with a `copy` parameter, called with `copy=False`: whatever it returns
+is the very object that was passed in (region 0, the root itself, not a view).  Full statement: for *every* such
+converter.  Proved for all but `ContentSequence.from_sequence`, which returns a new container holding the caller's
+items converted in place (`nocopy_content_sequence_rebuilds`); the correspondence checks item identity for it. -/
+theorem nocopy_returns_same (e : Entry) (he : e ∈ allEntries) (hc : e.hasCopy = true) (hq : rebuildsContainer e = false)
+    (v : Nat) (hv : v.testBit 0 = false) (w : Nat → Nat → Nat) (store : Nat → Nat)
+    (ref : Ref) (href : (run e.prog e.nIn v w store).result = some ref) : ref = ⟨0, true⟩ := by
+  have h := List.all_eq_true.mp table_nocopy e he
+  simp only [hc, hq, Bool.not_true, Bool.false_or] at h
+  exact nocopyReturnsSame_sound e (wf he).1 h v hv w store ref href
+
+/-- the excluded converter really is different: with `copy=False` it returns a newly allocated container … -/
+theorem nocopy_content_sequence_rebuilds :
+    ∃ e ∈ allEntries, rebuildsContainer e = true ∧
+      ((summary e.prog e.nIn 0).2.1.map fun r => decide (e.nIn ≤ r.region)) = some true := by
+  decide +kernel
+
+/-- … and with `copy=True` it still leaves the caller's sequence and items untouched (instance of `copy_leaves_original`) -/
+theorem copy_content_sequence_untouched (e : Entry) (he : e ∈ allEntries) (_hq : rebuildsContainer e = true)
+    (hc : e.hasCopy = true) (v : Nat) (hv : v.testBit 0 = true) (w : Nat → Nat → Nat) (store : Nat → Nat) (r : Nat)
+    (hr : r < e.nIn) : (run e.prog e.nIn v w store).store r = store r :=
+  (copy_leaves_original e he hc v hv w store).1 r hr
+
+/-- **the segmentation constructor's pixel path.**  `_check_and_cast_pixel_array` hands on either the caller's array (a view
+of region 0) or a new one, the frame loop takes `pixel_array[plane_index]` (a view), and `_get_segment_pixel_array` turns it
+into the stored plane; both helpers are in the table, so the caller's `pixel_array` (and every other argument) is never
+written whatever dtype / rank / segmentation type / `max_fractional_value` select. -/
+theorem seg_pixel_array_never_written (e : Entry) (he : e ∈ alias_seg_sop) (hc : e.hasCopy = false)
+    (v : Nat) (w : Nat → Nat → Nat) (store : Nat → Nat) (r : Nat) (hr : r < e.nIn) :
+    (run e.prog e.nIn v w store).store r = store r :=
+  inputs_never_written e (by simp [allEntries, he]) hc v w store r hr
+
+/-! non-vacuity: the tables contain the programs the theorems are meant for, and the checks can fail -/
+example : (allEntries.filter (·.hasCopy)).length ≥ 40 := by decide
+example : (alias_seg_sop.map (·.name)).contains "Segmentation._get_segment_pixel_array" = true := by decide
+/-- the defect that was repaired in /repo (`segment_array *= max_fractional_value` on a plane that aliases the caller's
+array) is rejected by the very check used above -/
+example : neverWritesInputs ⟨"in-place scaling", 1, 2, false,
+    [.assign 1 (.view (.var 0)), .ite 1 [.write (.var 1)] [], .ret (.var 1)]⟩ = false := by decide
+/-- so is the `LUT.from_dataset` shape that re-bound the original after copying it -/
+example : copyLeavesOriginal ⟨"rebinding", 2, 1, true,
+    [.ite 0 [.assign 2 .fresh] [.assign 2 (.var 0)], .assign 2 (.var 0), .write (.var 2), .ret (.var 2)]⟩ = false := by decide
+/-- and a converter that always copies fails `nocopyReturnsSame` (the `SourceImageForRegion` defect) -/
+example : nocopyReturnsSame ⟨"always copies", 2, 1, true, [.assign 2 .fresh, .writeDeep (.var 2), .ret (.var 2)]⟩ = false := by
+  decide
+/-- deep conversion through a link reaches the original (the `_SR.from_dataset` defect) -/
+example : copyLeavesOriginal ⟨"content taken from the original", 2, 1, true,
+    [.ite 0 [.assign 2 .fresh] [.assign 2 (.var 0)], .assign 3 .fresh, .write (.var 3), .link (.var 3) (.view (.var 0)),
+     .writeDeep (.var 3), .ret (.var 2)]⟩ = false := by decide
 
 end HdVerif.C20
